@@ -6,8 +6,8 @@ var formatRequirementDevs = map[string][]string{
 	"packed-self":       {"self.algMismatch", "alg.uint64Wrapped", "sig.otherKey"},
 	"fido-u2f":          {"u2f.twoCerts", "u2f.emptyX5cEntries", "u2f.noCerts", "u2f.certP384", "u2f.certRSA", "u2f.credNotEC2"},
 	"tpm":               {"tpm.badMagic", "tpm.badType", "tpm.wrongName", "tpm.nameAlgMismatch", "tpm.nameAlgForeignSameSize", "x5c.leafSecond", "tpm.nameHandle", "tpm.nameEmpty", "tpm.pubAreaOtherKey", "tpm.v1", "tpm.isCA", "tpm.noEKU", "tpm.ekuAnyOnly", "tpm.noSAN", "tpm.sanUnknownVendor", "tpm.sanNoModel", "tpm.sanNoVersion", "tpm.sanNoManufacturer", "tpm.extraDataOther", "tpm.extraDataShort", "tpm.noCerts", "key.rsaExponentAliased", "alg.uint64Wrapped"},
-	"android-key":       {"ak.certKeyOther", "certKey.sameXYOtherCurve", "ak.allAppsSW", "ak.allAppsTEE", "ak.noSign", "ak.originOther", "ak.challengeOther", "ak.challengeShort", "ak.noExtension", "x5c.leafSecond", "key.rsaExponentAliased", "alg.uint64Wrapped"},
-	"apple":             {"apple.certKeyOther", "certKey.sameXYOtherCurve", "apple.nonceOther", "apple.nonceShort", "apple.noNonce", "x5c.leafSecond", "key.rsaExponentAliased"},
+	"android-key":       {"ak.certKeyOther", "ak.certKeyOtherKind", "certKey.sameXYOtherCurve", "ak.allAppsSW", "ak.allAppsTEE", "ak.noSign", "ak.originOther", "ak.challengeOther", "ak.challengeShort", "ak.noExtension", "x5c.leafSecond", "key.rsaExponentAliased", "alg.uint64Wrapped"},
+	"apple":             {"apple.certKeyOther", "apple.certKeyOtherKind", "certKey.sameXYOtherCurve", "apple.nonceOther", "apple.nonceShort", "apple.noNonce", "x5c.leafSecond", "key.rsaExponentAliased"},
 	"android-safetynet": {"sn.wrongHost", "sn.untrustedChain", "sn.nonceOther", "sn.nonceShort", "sn.noX5c", "sn.nonceNotBase64", "sn.leafSecond", "sn.critUnknown", "sn.payloadAltered", "sn.unsigned"},
 }
 
